@@ -383,7 +383,7 @@ mod verif_replay_search_gk {
         }
         match first {
             Some(e) => {
-                println!("REPLAY-FAIL ops {}", e);
+                println!("REPLAY-FAIL ops(Reg(user); Add(user, locator, i) submits a blob of [1, 2048, 2049][i] bytes; Drop([(user, locator)..], refund); Connect / Disconnect a block; Restart from the database) {}", e);
                 panic!("replay found a failing sequence");
             }
             None => println!("REPLAY-NONE {} operation sequences (Reg(u0) followed by {} operations out of {}) under {} configurations agree with the abstract view", count, depth - 1, ops.len(), CONFIGS.len()),
